@@ -40,7 +40,7 @@ impl<Tz: TimeZone> ser::Serialize for DateTime<Tz> {
 
         impl<Tz: TimeZone> fmt::Display for FormatIso8601<'_, Tz> {
             fn fmt(&self, f: &mut fmt::Formatter) -> fmt::Result {
-                let naive = self.inner.naive_local();
+                let naive = self.inner.overflowing_naive_local();
                 let offset = self.inner.offset.fix();
                 write_rfc3339(f, naive, offset, SecondsFormat::AutoSi, true)
             }
